@@ -36,7 +36,8 @@ STR_POOL = ("", "a", "ab")
 DOM = {INT: INT_POOL, REAL: REAL_POOL, STRING: STR_POOL}
 
 INT_LITS = (-3, -1, 0, 1, 2)
-REAL_LITS = (-1, 0, 2, Fraction(1, 3), Fraction(-1, 2), 0.5, -1.5)
+REAL_LITS = (-1, 0, 2, Fraction(1, 3), Fraction(-1, 2), 0.5, -1.5,
+             2.0 ** -30, 0.1)      # floats denote their exact binary value, however small / non-decimal
 BOOL_LITS = (False, True)
 
 ABB = ("Array", ("BV", 1), BOOL)       # 4 values, all enumerated
@@ -346,7 +347,7 @@ def _mk_shapes():
         Sh[t + ":x+1"] = (T, (T,), (lambda one: lambda m, s: m.Plus(s[0], one(m, 1)))(one), lambda x: x + 1)
         Sh[t + ":x-y"] = (T, (T, T), lambda m, s: m.Minus(s[0], s[1]), lambda x, y: x - y)
         Sh[t + ":0-x"] = (T, (T,), (lambda one: lambda m, s: m.Minus(one(m, 0), s[0]))(one), lambda x: -x)
-        for v in (-1, 0, 2):
+        for v in (-3, -1, 0, 2, 7):
             Sh["%s:const%d" % (t, v)] = (T, (), (lambda one, v: lambda m, s: one(m, v))(one, v),
                                          (lambda v, T: lambda: v if T == INT else Fraction(v))(v, T))
     Sh["b:not"] = (BOOL, (BOOL,), lambda m, s: m.Not(s[0]), lambda a: not a)
@@ -707,6 +708,11 @@ def infix_cases(quick):
                 continue
             f, rs = sem
             call = (lambda pyop: lambda api, a, b: pyop(a, b))(pyop)
+            consts = [k for k in shapes if ":const" in k]
+            for c1 in consts:
+                # both operands constant formulas: a constructor may fold them (7 div -3, -3 div 2, ...)
+                for c2 in consts:
+                    add(dn, [C(c1), C(c2)], call, f, rs, True)
             for sh in shapes:
                 add(dn, [C(sh), S(T)], call, f, rs, True)
                 add(dn, [S(T), C(sh)], call, f, rs, True)
